@@ -109,7 +109,7 @@ def world(kind, variant):
 def snapshot(app, kind):
     if kind == "sqlite":
         path = app.orchestrator.sqlite_db_path
-        conn = sqlite3.connect(path, timeout=0)
+        conn = sqlite3.connect(path, timeout=10)
         out = {}
         try:
             for (name,) in conn.execute("SELECT name FROM sqlite_master WHERE type='table' ORDER BY name").fetchall():
@@ -230,7 +230,7 @@ def queue_scene(kind, n, missing_mask):
 def queue_list(app, kind):
     if kind == "mem":
         return list(app.broker._queue)
-    conn = sqlite3.connect(app.broker.sqlite_db_path, timeout=0)
+    conn = sqlite3.connect(app.broker.sqlite_db_path, timeout=10)
     try:
         return [r[0] for r in conn.execute(f"SELECT invocation_id FROM {app.broker.tables.QUEUE} ORDER BY created_at ASC, id ASC").fetchall()]
     finally:
@@ -250,14 +250,27 @@ def queue_get(kind_i, limit, n, missing_mask):
         saved = vb.templates
         vb.templates = _Rec()
     outcome = "returned"
-    try:
-        drive(vb.queue_view(None, limit))
-    except Exception as e:
-        outcome = "raised " + type(e).__name__
+    if kind == "sqlite":
+        # sqlite3/json under tracing raise artefacts: on SQLite the limit is decided by the solver from a finite
+        # domain and the handler runs concretely; the unbounded symbolic limit is explored on the in-memory stack
+        limit = pick(limit, -1, 6)
+        with NoTracing():
+            try:
+                drive(vb.queue_view(None, limit))
+            except Exception as e:
+                outcome = "raised " + type(e).__name__
+    else:
+        try:
+            drive(vb.queue_view(None, limit))
+        except Exception as e:
+            outcome = "raised " + type(e).__name__
     with NoTracing():
         vb.templates = saved
         after = queue_list(app, kind)
         LAST_DETAIL = {"kind": kind, "n": n, "missing_mask": missing_mask, "before": before, "after": after, "outcome": outcome}
+        if after != before:
+            import sys as _s
+            print("QUEUE-DIFF", LAST_DETAIL, file=_s.stderr)
     return after == before
 '''
 
@@ -266,6 +279,7 @@ def queue_ok(kind_i: int, limit: int, n: int) -> bool:
     """
     pre: 0 <= kind_i <= 1 and 0 <= n <= 4
     pre: limit >= n or limit <= 0
+    pre: kind_i == 0 or -1 <= limit <= 6
     post: _
     """
     kind_i = pick(kind_i, 0, 1); n = pick(n, 0, 4)
@@ -275,6 +289,7 @@ def queue_twin(kind_i: int, limit: int, n: int) -> bool:
     """
     pre: 0 <= kind_i <= 1 and 0 <= n <= 4
     pre: limit >= n or limit <= 0
+    pre: kind_i == 0 or -1 <= limit <= 6
     post: _
     """
     queue_ok(kind_i, limit, n)
@@ -293,6 +308,7 @@ def finding_queue_loses(kind_i: int, limit: int, n: int, mask: int) -> bool:
     """
     pre: 0 <= kind_i <= 1 and 1 <= n <= 3 and 1 <= mask < 8
     pre: limit >= n
+    pre: kind_i == 0 or limit <= 6
     post: _
     """
     kind_i = pick(kind_i, 0, 1); n = pick(n, 1, 3); mask = pick(mask, 1, 7)
@@ -357,7 +373,7 @@ def run(ctx: Ctx) -> None:
     ctx.ch_batch("c20", src, conds)
     ctx.functions_encoded += ["pynmon.views.broker.queue_view (traced, symbolic limit)"] + [f"pynmon.views.{n} (parameters decided by the solver, handler + template rendering run concretely)" for n in covered]
     ctx.bounds = {
-        "queue_view": "limit: unbounded symbolic int; queue length 0..4; missing-record subsets; both backends",
+        "queue_view": "in-memory stack: limit is an unbounded symbolic int (handler traced); SQLite stack: limit in -1..6 (handler concrete); queue length 0..4; missing-record subsets",
         "other handlers": "every GET route of the view routers x 5 prepared states (empty, mixed, long queue, state backend purged, failed+waiting) x 7x7 parameter choices from adversarial domains (existing/missing/malformed ids, limits -1..1e6) x 2 backends",
     }
     ctx.stubs += ["handler coroutines driven with send(None) (they never await)", "queue_view: templates.TemplateResponse replaced by a recorder; other handlers render the real templates",
